@@ -126,6 +126,9 @@ class Ctx:
         for c in cmds:
             out = os.path.join(bindir, c + ('_race' if race else ''))
             argv = ['go', 'build', '-tags', 'verif', '-o', out]
+            if os.environ.get('VERIF_OVERLAY'):
+                # development aid: test a candidate change to /repo without touching /repo
+                argv += ['-overlay', os.environ['VERIF_OVERLAY']]
             if race:
                 argv.append('-race')
             argv.append('./cmd/' + c)
@@ -320,9 +323,25 @@ def load_known():
     if not os.path.exists(path):
         return {}
     by = {}
-    for k in json.load(open(path)).get('findings', []):
-        by.setdefault(k['property'], []).append(k)
+    seen = set()
+    files = [path]
+    kdir = os.path.join(VERIF, 'known')
+    if os.path.isdir(kdir):
+        files += [os.path.join(kdir, f) for f in sorted(os.listdir(kdir)) if f.endswith('.json')]
+    for fp in files:
+        for k in json.load(open(fp)).get('findings', []):
+            if k['id'] in seen:
+                continue
+            seen.add(k['id'])
+            by.setdefault(k['property'], []).append(k)
+    if os.environ.get('VERIF_NO_KNOWN'):
+        return {}
     return by
+
+
+def known_fixed(pid):
+    """Entries recorded as fixed (they suppress nothing; informational)."""
+    return [k for k in load_known().get(pid, []) if k.get('status') == 'fixed']
 
 
 def split_traces(path):
